@@ -2,6 +2,7 @@ import vlib
 
 class P(vlib.Prop):
     id = "C09"
+    coq_targets = ["Properties/C09.vo", "Corr/C09.vo", "Proofs/LockResolverBridge.vo"]
     rule = ("unify stage: hand-picked corners, then generated per-architecture resolutions (1-3 architectures, versions/provides diverging "
             "with increasing probability, packages missing on some architectures, virtuals requested by provided name, pinned and "
             "operator-carrying originals, duplicates, malformed originals) through the real build.unify (verif hook), every input "
